@@ -428,12 +428,12 @@ def build_callbacks(cfg, R, plan, nn_state, tmpdir):
 
 def real_run(cfg, plan=(), seed=0, k=1, lr=0.05, numeric_hook=None, time_flag=False,
              nn_state=None, container="tensor", opt_base=torch.optim.SGD, tmpdir=None,
-             sched_args=None, force=None, prev=None, metric_names=("m",)):
+             sched_args=None, force=None, prev=None, metric_names=("m",), opt_args=None, sched_base=None):
     """Run the real fit for configuration `cfg` (a dict shaped like Train.tla's cfg
     records; `vals`/`vars` indexed by epoch).  plan = set of (k, ep, b, cb) where
     recording callback cb requests a stop.  Returns the observed projection."""
     torch.manual_seed(seed)
-    nv = nv_for(cfg)
+    nv = nv_for(cfg) if nn_state is None else int(nn_state.num_visible)
     if prev is not None:
         # a second fit() on the same model and the same callback objects
         nn_state = prev["nn_state"]
@@ -514,8 +514,10 @@ def real_run(cfg, plan=(), seed=0, k=1, lr=0.05, numeric_hook=None, time_flag=Fa
                       neg_batch_size=(cfg["negB"] if cfg["negB"] else None), k=k, lr=lr,
                       starting_epoch=cfg["startEp"], callbacks=cbs, time=time_flag,
                       optimizer=make_optimizer(R, opt_base))
+        if opt_args:
+            kwargs["optimizer_args"] = dict(opt_args)
         if cfg["sched"]:
-            kwargs["scheduler"] = make_scheduler(R)
+            kwargs["scheduler"] = make_scheduler(R, sched_base) if sched_base is not None else make_scheduler(R)
             kwargs["scheduler_args"] = sched_args or {"step_size": 1, "gamma": 0.5}
         if bases is not None:
             kwargs["input_bases"] = bases
